@@ -1,11 +1,66 @@
 import EpdVerif.Drivers.Dsl
 import EpdVerif.Gen.Epd3in7
-/-! model of `src/epd3in7/mod.rs` (STUB: programs not yet transcribed) -/
+/-! model of `src/epd3in7/mod.rs` -/
 namespace EpdVerif.Drivers.Epd3in7
 open EpdVerif
 open EpdVerif.Gen.Epd3in7
 
-def prog (_f : Feat) (_d : DState) : Op → Option (List Act)
+def W : Act := .wait IS_BUSY_LOW
+
+/-- `crate::buffer_len` -/
+def bufferLen (w h : Nat) : Nat := (w + 7) / 8 * h
+
+/-- `set_lut`: `Full | None` → GC table, `Quick` → DU table; nothing is stored -/
+def setLut (r : Option Refresh) : List Act :=
+  cmdData Command.WriteLutRegister
+    (match r with
+     | some .full | none => LUT_1GRAY_GC
+     | some .quick => LUT_1GRAY_DU)
+
+def init : List Act :=
+  [.reset 30 10, .cmd Command.SwReset, .delayUs 300000] ++
+  cmdData Command.AutoWriteRedRamRegularPattern [0xF7] ++ [W] ++
+  cmdData Command.AutoWriteBwRamRegularPattern [0xF7] ++ [W] ++
+  cmdData Command.GateSetting [0xDF, 0x01, 0x00] ++
+  cmdData Command.GateVoltage [0x00] ++
+  cmdData Command.GateVoltageSource [0x41, 0xA8, 0x32] ++
+  cmdData Command.DataEntrySequence [0x03] ++
+  cmdData Command.BorderWaveformControl [0x03] ++
+  cmdData Command.BoosterSoftStartControl [0xAE, 0xC7, 0xC3, 0xC0, 0xC0] ++
+  cmdData Command.TemperatureSensorSelection [0x80] ++
+  cmdData Command.WriteVcomRegister [0x44] ++
+  cmdData Command.DisplayOption [0x00, 0xFF, 0xFF, 0xFF, 0xFF, 0x4F, 0xFF, 0xFF, 0xFF, 0xFF] ++
+  cmdData Command.SetRamXAddressStartEndPosition [0x00, 0x00, 0x17, 0x01] ++
+  cmdData Command.SetRamYAddressStartEndPosition [0x00, 0x00, 0xDF, 0x01] ++
+  cmdData Command.DisplayUpdateSequenceSetting [0xCF] ++
+  setLut (some .full)
+
+def updateFrame (b : Bytes) : List Act :=
+  assertA (b.length == bufferLen WIDTH HEIGHT) ++
+  cmdData Command.SetRamXAddressCounter [0x00, 0x00] ++
+  cmdData Command.SetRamYAddressCounter [0x00, 0x00] ++
+  cmdData Command.WriteRam b
+
+def displayFrame : List Act := [.cmd Command.DisplayUpdateSequence, W]
+
+def clearFrame (d : DState) : List Act :=
+  cmdData Command.SetRamXAddressCounter [0x00, 0x00] ++
+  cmdData Command.SetRamYAddressCounter [0x00, 0x00] ++
+  [.cmd Command.WriteRam, .rep (byteValue d.bg) (WIDTH * HEIGHT)]
+
+def prog (_f : Feat) (d : DState) : Op → Option (List Act)
+  | .new => some init
+  | .wake => some init
+  | .sleep =>
+    some (cmdData Command.Sleep [0xF7] ++ [.cmd Command.PowerOff] ++ cmdData Command.Sleep2 [0xA5])
+  | .upd b => some (updateFrame b)
+  | .part _ _ _ _ _ => some [.panic]
+  | .disp => some displayFrame
+  | .updisp b => some (updateFrame b ++ displayFrame)
+  | .clear => some (clearFrame d)
+  | .bg c => some [.upd (fun d => { d with bg := c })]
+  | .lut r => some (setLut r)
+  | .wait => some [W]
   | _ => none
 
 def panel (f : Feat) : Panel :=
